@@ -545,3 +545,5 @@ META = {
 }
 
 META['explanation'] += ' ' + "Further: loaders are read-only (no persistent cache carrying another run's flags); print_guess reaches its write on every non-debug path; uniform scale and renormalisation shared from C01/C14."
+
+META['explanation'] += ' ' + 'Round 13: every option parse_command_line stores is read under the same key elsewhere in the entry script; grammar sections are distinct lists.'
